@@ -161,13 +161,29 @@ Fixpoint rank_bucket (rank : Q) (r : ext) (cum : Q) (bs : list bucket) : bool :=
       || rank_bucket rank r (cum + bc b) rest
   end.
 
-Definition holds_q (h : hist) (wf : bool) (qr : Q * res) : bool :=
+(* a histogram with NaN observations: as wf_hist but sum NaN and count >= sum of the buckets *)
+Definition wfn_hist (h : hist) : bool :=
+  Qlt_bool 0 (h_count h) && sum_nan h &&
+  Qle_bool (sumc (h_buckets h)) (h_count h) &&
+  forallb (fun b => Qle_bool 0 (bc b) && ext_ltb (bl b) (bu b)) (h_buckets h) &&
+  sorted_bk (h_buckets h) &&
+  negb (existsb (fun b => is_ninf (bl b) && is_pinf (bu b)) (h_buckets h)).
+
+Definition holds_q (h : hist) (wf wfn : bool) (qr : Q * res) : bool :=
   let '(q, r) := qr in
   if in01 q && wf then
     match r with
     | RNaN => false
     | R e => rank_bucket (q * h_count h) e 0 (h_buckets h)
     end
+  else if in01 q && wfn then
+    (* NaN observations: a rank within the buckets gives a number inside the bucket holding it *)
+    if Qle_bool (q * h_count h) (sumc (h_buckets h)) then
+      match r with
+      | RNaN => false
+      | R e => rank_bucket (q * h_count h) e 0 (h_buckets h)
+      end
+    else true
   else true.
 
 Definition contains (lo1 up1 lo2 up2 : ext) : bool := ext_leb lo2 lo1 && ext_leb up1 up2.
@@ -201,7 +217,7 @@ Definition holds_n (c : ncase) : bool :=
   (* monotone in q: for consistent histograms, and for histograms with NaN observations *)
   (if Qeq_bool (h_count h) (sumc (h_buckets h)) || sum_nan h
    then mono_from None (map snd (n_qs c)) else true) &&
-  (let wf := wf_hist h in forallb (holds_q h wf) (n_qs c)) &&
+  (let wf := wf_hist h in let wfn := wfn_hist h in forallb (holds_q h wf wfn) (n_qs c)) &&
   forallb (holds_f h (n_fs c)) (n_fs c).
 
 (* ================================================================ classic *)
